@@ -19,11 +19,15 @@ def main():
     ap.add_argument("--tier", default=os.environ.get("VERIF_TIER", "quick"), choices=["quick", "thorough"])
     ap.add_argument("--replay")
     ap.add_argument("--only")
+    ap.add_argument("--trace-shard", help=argparse.SUPPRESS)
+    ap.add_argument("--trace-out", help=argparse.SUPPRESS)
     a = ap.parse_args()
     env.bootstrap()
     from vlib import runner
 
     try:
+        if a.trace_shard:
+            sys.exit(runner.trace_shard(a.check.upper(), a.trace_shard, a.trace_out))
         rc = runner.main(a.check, a.tier, replay=a.replay, only=a.only.split(",") if a.only else None)
     except SystemExit:
         raise
